@@ -75,8 +75,12 @@ def eager_cat_homogeneous(name, part_name, *parts):
     dim = 0
     white_vec = ops.cat(white_vecs, dim)
     prec_sqrt = ops.cat(prec_sqrts, dim)
-    inputs[name] = Bint[white_vec.shape[dim]]
-    int_inputs[name] = inputs[name]
+    # The concatenated dim is the leftmost batch dim of the data.
+    cat_input = [(name, Bint[white_vec.shape[dim]])]
+    inputs = OrderedDict(cat_input + [(k, v) for k, v in inputs.items() if k != name])
+    int_inputs = OrderedDict(
+        cat_input + [(k, v) for k, v in int_inputs.items() if k != name]
+    )
     result = Gaussian(white_vec, prec_sqrt, inputs)
     if any(d is not None for d in discretes):
         for i, d in enumerate(discretes):
